@@ -59,15 +59,22 @@ def conditions(tier):
     for key, idxs in sorted(groups.items()):
         chunks = [idxs[i:i + 12] for i in range(0, len(idxs), 12)]
         for ci, chunk in enumerate(chunks):
+            # platform-width unsigned types: negative values are a recorded finding;
+            # keep them in a condition of their own so they cannot mask anything else
+            ranges = [('', 'every integer')]
+            if key == 'platform-unsigned':
+                ranges = [('v >= 0', 'every integer >= 0'), ('v < 0', 'every integer < 0')]
             for chain in (0, 1, 2):
-                conds.append(ch.Cond(
-                    'h_c13', 'const_int', [('spelling_idx', 'int'), ('v', 'int')],
-                    pre=['spelling_idx in %r' % (tuple(chunk),)], fixed={'chain': chain},
-                    timeout=120 if tier == 'quick' else 400,
-                    name='const_int[%s#%d,chain=%d]' % (key, ci, chain),
-                    bounds='declared type in {%s} via %d typedef aliases; value: every integer'
-                    % (', '.join(H.INT_SPELLINGS[i] for i in chunk), chain),
-                    finding_classifier=_classify_const))
+                for vpre, vtext in ranges:
+                    conds.append(ch.Cond(
+                        'h_c13', 'const_int', [('spelling_idx', 'int'), ('v', 'int')],
+                        pre=['spelling_idx in %r' % (tuple(chunk),)] + ([vpre] if vpre else []),
+                        fixed={'chain': chain},
+                        timeout=120 if tier == 'quick' else 400,
+                        name='const_int[%s#%d,chain=%d%s]' % (key, ci, chain, (',' + vpre) if vpre else ''),
+                        bounds='declared type in {%s} via %d typedef aliases; value: %s'
+                        % (', '.join(H.INT_SPELLINGS[i] for i in chunk), chain, vtext),
+                        finding_classifier=_classify_const))
     conds.append(ch.Cond('h_c13', 'const_int', [('v', 'int')], fixed={'spelling_idx': -1, 'chain': 0},
                          timeout=120, name='const_int[untyped]',
                          bounds='no declared type; value: every integer'))
